@@ -62,6 +62,8 @@ class Sched:
 
     def point(self, me, label):
         with self.cv:
+            if self.killed:      # the execution is over: a thread that is being unwound must not take decisions any more
+                raise Kill()     # (line events also fire for `except` clauses while Kill propagates)
             self.trace.append((me, label))
             self.pos[me] = label
             self._dispatch()
@@ -185,8 +187,10 @@ def run_one(choices, answer, net_ready, group, args):
                     if not S.killed:
                         S._dispatch()
         U.Updater.run = run
-        mod = importlib.import_module("ascmhl.cli." + group)
-        mod = importlib.reload(mod)
+        # exactly ONE execution of the cli module body (it creates and starts the Updater thread): import it when it
+        # is not loaded yet, reload it otherwise - never both
+        modname = "ascmhl.cli." + group
+        mod = importlib.reload(sys.modules[modname]) if modname in sys.modules else importlib.import_module(modname)
         cli = mod.mhltool_cli if group == "ascmhl" else mod.mhldebugtool_cli
         S.shared = lambda: (repr(getattr(mod.updater, "latest_version", None)), getattr(mod.updater, "finished", None))
         # the thread object exists now (created at import); wait until it has registered with the scheduler,
@@ -210,6 +214,7 @@ def run_one(choices, answer, net_ready, group, args):
         threading.excepthook = old_hook
         with S.cv:
             S.killed = True
+            S.taken, S.points, S.keys, S.trace = list(S.taken), list(S.points), list(S.keys), list(S.trace)
             S.cv.notify_all()
     return S, result, (thread_exc[0] if thread_exc else None)
 
